@@ -169,6 +169,8 @@ def classify(pid, results, baseline, known):
                 # has (a renamed or removed variable): the clause was dropped for this run, what rested on it is not decided
                 anchor_drift = any(("anchor not found" in d or "names a variable the code no longer has" in d) for d in (f.get("drift") or []))
                 independent = o["kind"] in ("index", "slice", "div", "nil", "panic", "exit", "typeassert", "makeslice", "lock", "monitor", "frame", "shift", "conv")
+                # a guard clause (`requires false` on a call that must not appear) depends on nothing
+                independent = independent or (o["desc"] or "").rstrip().endswith("precondition false")
                 if matched:
                     rep["known"].append((o, matched))
                 elif clause_key(o) in base and (not anchor_drift or independent):
